@@ -61,6 +61,29 @@ fn main() {
     let ts: Vec<u64> = (0..k).map(|i| inp(&format!("ts{}", i))).collect();
     let vals: Vec<f64> = (0..k).map(|i| 10f64.powi(i as i32 + 1)).collect();
     let mut v: Vec<&str> = vec![];
+    if inp("direct") != 0 {
+        // timestamps in any order cannot be produced through a handle (the clock does not run backwards): the public Distribution
+        // API is driven directly with instants taken from a mock clock
+        let (clock, mock) = quanta::Clock::mock();
+        let mut cur = 0u64;
+        let mut instants = vec![];
+        for i in 0..k {
+            if ts[i] >= cur { mock.increment(ts[i] - cur); } else { mock.decrement(cur - ts[i]); }
+            cur = ts[i];
+            instants.push(clock.now());
+        }
+        let mut dist = metrics_exporter_prometheus::Distribution::new_summary(std::sync::Arc::new(vec![]), Duration::from_nanos(d), NonZeroU32::new(n as u32).unwrap());
+        let samples: Vec<(f64, quanta::Instant)> = (0..k).map(|i| (vals[i], instants[i])).collect();
+        let r = std::panic::catch_unwind(std::panic::AssertUnwindSafe(|| {
+            if batch { dist.record_samples(&samples); } else { for s_ in &samples { dist.record_samples(&[*s_]); } }
+        }));
+        if r.is_err() { v.push("returns"); }
+        if let metrics_exporter_prometheus::Distribution::Summary(rolling, _, sum) = &dist {
+            println!("n={} d={} ts={:?}: count={} sum={}", n, d, ts, rolling.count(), sum);
+            if rolling.count() != k { v.push("count_covers_all_samples"); }
+        } else { v.push("returns"); }
+        finish(&v, &plan);
+    }
     let (clock, mock) = quanta::Clock::mock();
     let text = quanta::with_clock(&clock, || {
         let rec = PrometheusBuilder::new().set_quantiles(&[0.0, 1.0]).unwrap().set_bucket_duration(Duration::from_nanos(d)).unwrap()
